@@ -177,6 +177,9 @@ pub fn c02_cases(thorough: bool, seed: u64) -> Vec<(Shape, ErrPlan)> {
     single("second_of_two_constraints", &[Commit, AllocMul, Con, Con], &[], &[1], &[]);
     single("gate_output_without_any_constraint", &[AllocMul, AllocMul], &[], &[], &[(1, 2)]);
     single("gate_output_only_commitment_no_constraint", &[Commit, AllocMul], &[], &[], &[(0, 2)]);
+    // violations inside the FIRST of two registered closures
+    single("constraint_in_first_of_two_closures", &[Commit, AllocMul, Con], &[&[Chal, Con], &[Chal, AllocMul]], &[1], &[]);
+    single("gate_in_first_of_two_closures", &[Commit, AllocMul], &[&[Chal, AllocMul, Con], &[Chal, Con]], &[], &[(1, 2)]);
     // universal: all errors symbolic at once
     for s in [
         Shape::new("all_errors_one_gate", &[Commit, AllocMul, Con, ConCommitted], &[]),
